@@ -22,7 +22,8 @@ from concurrent.futures import ThreadPoolExecutor
 import scen
 import storeobs
 
-TARGETS = [{"path": "app"}, {"path": "app2"}, {"path": "lib"}, {"path": "lib/core"}, {"path": "web", "uses": ["lib"]}]
+TARGETS = [{"path": "app"}, {"path": "app2"}, {"path": "lib"}, {"path": "lib/core"}, {"path": "web", "uses": ["lib"]},
+           {"path": "naïve"}]
 COMMANDS = ["build", "test"]
 
 
@@ -185,7 +186,10 @@ def gen_filter(rng):
     commands = []
     if rng.chance(1, 3):
         commands = [rng.pick(COMMANDS)]
-    if targets and rng.chance(1, 2):
+    if rng.chance(1, 8):
+        # a filter that names no configured target at all admits nothing
+        targets = [rng.pick(["nosuch", "app/", "ap", "lib/cor"])]
+    elif targets and rng.chance(1, 2):
         # a long filter: dozens of other (here: absent) targets are named too, several KB of JSON
         targets = targets + ["services/%s/%03d" % ("x" * rng.range(40, 90), i) for i in range(rng.range(40, 80))]
     return {"stdout": so, "stderr": se, "targets": targets, "commands": commands}
@@ -479,6 +483,85 @@ def c20_stall_case(seed, model, rep):
         repo.done()
 
 
+def c20_frozen_case(seed, model, rep):
+    """the listener is suspended when the run connects and resumed a few seconds later: the run waits
+    for it and everything is streamed"""
+    rng = scen.Rng(seed)
+    plan, expect = gen_plan(rng, realtime=False)
+    flt = {"stdout": True, "stderr": True, "targets": [], "commands": []}
+    repo = make_repo(plan)
+    stall = rng.pick([1.6, 2.4])
+    case = {"seed": seed, "mode": "c20frozen", "stall_s": stall}
+    try:
+        tail = start_tail(repo, flt)
+        os.kill(tail.pid, signal.SIGSTOP)
+        p = repo.popen(["run", "-c"] + COMMANDS)
+        time.sleep(stall)
+        os.kill(tail.pid, signal.SIGCONT)
+        try:
+            out, err = p.communicate(timeout=120)
+        except subprocess.TimeoutExpired:
+            scen.kill_tree(p)
+            tail.kill()
+            rep.oracle_fail({"kind": "blocks of a key do not reassemble to its stored log", "case": case, "detail": "the run did not finish"})
+            return
+        rep.evaluations += 1
+        rep.count("frozen_listener_cases")
+        if p.returncode != 0:
+            tail.kill()
+            rep.count("frozen_case_unexpected_rc")
+            return
+        if blocks_vs_stored(repo, tail, flt, case, rep):
+            rep.nontrivial_case({"seed": seed, "mode": "frozen"})
+    finally:
+        repo.done()
+
+
+def c08_isolation_case(seed, model, rep):
+    """targets whose SHA-256 digests share their first 32 bits, in one group; and a slot that is reused
+    by a run that executes less than the run before it: every log holds its own task's bytes only"""
+    rng = scen.Rng(seed)
+    targets = [{"path": "svc24848"}, {"path": "svc93803"}, {"path": "other"}]
+    repo = scen.Repo(targets, git=False, max_retained_runs=1)
+    case = {"seed": seed, "mode": "c08isolation"}
+    try:
+        for t in targets:
+            for c in ("build", "check"):
+                repo.install(t["path"], c)
+        plan, expect = {}, {}
+        for t in targets:
+            body = ("%s says %d\n" % (t["path"], rng.below(100000))).encode() * rng.range(1, 4)
+            plan["build|%s" % t["path"]] = {"steps": [[0, 1, body.hex()], [0, 2, body[::-1].hex()]]}
+            expect[("stdout", t["path"], "build")] = body
+            expect[("stderr", t["path"], "build")] = body[::-1]
+        plan["check|other"] = {"steps": [[0, 1, b"check other\n".hex()]]}
+        repo.set_plan(plan)
+        rc, j, out, err = repo.mono("run", "-c", "build")
+        rep.evaluations += 1
+        rep.count("isolation_cases")
+        if rc != 0:
+            rep.oracle_fail({"kind": "run failed", "case": case, "rc": rc, "stderr": err[-300:]})
+            return
+        got = show_per_key(repo, expect.keys())
+        bad = [list(k) for k in expect if got.get(k) != expect[k]]
+        if bad:
+            rep.oracle_fail({"kind": "stored log differs from the bytes written", "case": case, "keys": bad,
+                             "detail": "targets svc24848 and svc93803 (digests agree in their first 8 hex digits)"})
+            return
+        # the only slot is reused by a run that executes one task
+        rc, j, out, err = repo.mono("run", "-c", "check", "-t", "other")
+        rc2, _, shown, _ = repo.mono("log", "show", "--stdout", "--stderr")
+        logs = storeobs.parse_log_show(shown) if rc2 == 0 else None
+        if rc != 0 or logs != {("stdout", "other", "check"): b"check other\n"}:
+            rep.oracle_fail({"kind": "stored log differs from the bytes written", "case": case,
+                             "detail": "log show after a run that reuses the slot shows something else than that run's logs",
+                             "shown_keys": sorted(map(str, (logs or {}).keys()))})
+            return
+        rep.nontrivial_case({"seed": seed, "mode": "isolation"})
+    finally:
+        repo.done()
+
+
 def c20_longline_case(seed, model, rep):
     """a line far longer than any buffer that straddles several flush ticks, next to short lines from
     other tasks: a block never ends in the middle of a line"""
@@ -695,7 +778,7 @@ def main():
     scen.run_cases(lambda s: fn(s, model, rep), seeds, rep, 8)
     thorough = args["tier"] == "thorough"
     extra = []
-    special = {"c08repeat": c08_repeat_case, "c15stall": c15_stall_case, "c15restart": c15_restart_case, "c08volume": c08_volume_case, "c20cancel": c20_cancel_case, "c20stall": c20_stall_case, "c20longline": c20_longline_case}
+    special = {"c08isolation": c08_isolation_case, "c20frozen": c20_frozen_case, "c08repeat": c08_repeat_case, "c15stall": c15_stall_case, "c15restart": c15_restart_case, "c08volume": c08_volume_case, "c20cancel": c20_cancel_case, "c20stall": c20_stall_case, "c20longline": c20_longline_case}
     for c in scen.load_corpus(args["corpus"], prop):
         cc = c.get("case", c)
         if isinstance(cc, dict) and cc.get("mode") in special and "seed" in cc:
@@ -705,6 +788,7 @@ def main():
     elif prop == "C08":
         extra += [(c08_volume_case, rng.next()) for _ in range((6 if thorough else 1) * max(1, args["budget"]))]
         extra += [(c08_repeat_case, rng.next()) for _ in range((8 if thorough else 2) * max(1, args["budget"]))]
+        extra += [(c08_isolation_case, rng.next()) for _ in range((3 if thorough else 1) * max(1, args["budget"]))]
     elif prop == "C15":
         extra += [(c15_stall_case, rng.next()) for _ in range((4 if thorough else 1) * max(1, args["budget"]))]
         extra += [(c15_restart_case, rng.next()) for _ in range((6 if thorough else 2) * max(1, args["budget"]))]
@@ -712,6 +796,7 @@ def main():
         extra += [(c20_cancel_case, rng.next()) for _ in range((20 if thorough else 3) * max(1, args["budget"]))]
         extra += [(c20_stall_case, rng.next()) for _ in range((5 if thorough else 1) * max(1, args["budget"]))]
         extra += [(c20_longline_case, rng.next()) for _ in range((6 if thorough else 1) * max(1, args["budget"]))]
+        extra += [(c20_frozen_case, rng.next()) for _ in range((4 if thorough else 1) * max(1, args["budget"]))]
     if args["budget"] > 0:
         scen.run_cases(lambda e: e[0](e[1], model, rep), extra, rep, 3)
     j = rep.to_json()
